@@ -413,6 +413,35 @@ func runChaos(r *common.Run, sk *sink, o chaosOpt) {
 		sk.Count("not_converged_after_heal", 1)
 	}
 	replayCheck(c, sk, shardID, replicas, o.Case, "after-heal")
+	if o.Wire && converged {
+		// directed transfers: a follower is cut off until the leader has compacted what it misses,
+		// then healed - with the chunk level faults on again - so that every case sends snapshots
+		// (ballast, external files) over the wire; all replicas must agree again afterwards
+		wf := o.WireFaults
+		wf.FlipPerMB, wf.CutPerMB = wf.FlipPerMB/2, 0
+		for cy := 0; cy < 2; cy++ {
+			li := c.LeaderHost(shardID, replicas)
+			if li < 0 {
+				break
+			}
+			f := (li + 1 + cy) % o.Hosts
+			c.Net.Isolate(c.Hosts[f].Addr, false)
+			w.RunClients(3, int(o.SnapEntries+o.Overhead)/2+8, nil)
+			c.Net.SetWireFaults(wf)
+			c.Net.HealAll()
+			ok := waitFor(20*time.Second, func() bool { return sameState(c, shardID, replicas) })
+			c.Net.SetWireFaults(cluster.WireFaults{})
+			if !ok {
+				ok = waitFor(20*time.Second, func() bool { return sameState(c, shardID, replicas) })
+			}
+			if !ok {
+				sk.Count("wire_directed_transfer_not_converged", 1)
+				break
+			}
+			sk.Count("wire_directed_transfer_cycles", 1)
+		}
+		replayCheck(c, sk, shardID, replicas, o.Case, "after-directed-transfers")
+	}
 	// a few final client operations through the healed cluster
 	w.RunClients(2, 6, nil)
 	waitFor(10*time.Second, func() bool { return sameState(c, shardID, replicas) })
@@ -496,6 +525,8 @@ func runChaos(r *common.Run, sk *sink, o chaosOpt) {
 		sk.Count("wire_chunks_corrupted_before_framing", ws.ChunksCorrupted)
 		sk.Count("wire_chunks_repeated", ws.ChunksDuplicated)
 		sk.Count("wire_chunk_send_errors", ws.ChunkSendErrors)
+		sk.Count("wire_chunks_of_external_files", ns.ExtFileChunks)
+		sk.Count("wire_chunks_of_external_files_that_are_a_whole_number_of_chunks", ns.ExtFileChunksOfWholeChunkFiles)
 	}
 	sk.Count("leader_terms", int64(c.LeaderTerms()))
 	var ssRecoveries int64
